@@ -55,12 +55,18 @@ class CurProc(plumpy.Process):
         # a synchronous continuation (no awaits inside): only sync ops are honoured
         return self._segment_sync(self.seg)
 
+    def bound_probe(self, owner, tag):
+        """A method of THIS process handed to ``owner.call_soon``: it runs as a callback of ``owner``."""
+        target = PROCS.get(owner)
+        if target is not None:
+            sample(target, 'callback', tag)
+
     def _after(self, i, wait):
         self.seg = i + 1
         last = self.seg >= len(self.script['segments'])
         if last:
             return 'done-%s' % self.raw_inputs['name']
-        nxt_sync = all(op[0] in ('sample', 'soon', 'asoon', 'out', 'parent_soon', 'parent_ctl') for op in self.script['segments'][self.seg]) and self.script.get('sync')
+        nxt_sync = all(op[0] in ('sample', 'soon', 'asoon', 'out', 'parent_soon', 'parent_ctl', 'close_fresh') for op in self.script['segments'][self.seg]) and self.script.get('sync')
         fn = self.scont if nxt_sync else self.cont
         if wait:
             return ps.Wait(fn, 'w')
@@ -98,8 +104,15 @@ class CurProc(plumpy.Process):
             if parent is not None and not parent.has_terminated():
                 tag = 'from-child-%s' % self.raw_inputs['name']
                 # (the callback is a plain function, a coroutine function or an object with an async __call__, in turn)
-                kind = len(tag + op[1]) % 3
-                parent.call_soon(_cb(parent, tag) if kind == 0 else (_acb(parent, tag, 2) if kind == 1 else _AsyncCallable(parent, tag, 2)))
+                kind = len(tag + op[1]) % 4
+                if kind == 3:
+                    # ... or a bound method of this (the child) process: it is the parent's callback all the same
+                    parent.call_soon(self.bound_probe, parent.raw_inputs['name'], tag + ':bound-method-of-child')
+                else:
+                    parent.call_soon(_cb(parent, tag) if kind == 0 else (_acb(parent, tag, 2) if kind == 1 else _AsyncCallable(parent, tag, 2)))
+        elif kind == 'close_fresh':
+            close_fresh('%s.fresh%d' % (self.raw_inputs['name'], i), self.loop)
+            sample(self, 'step', 'seg%d:after-close-fresh' % i)
 
     async def _segment(self, i):
         sample(self, 'step', 'seg%d:entry' % i)
@@ -141,6 +154,14 @@ class CurProc(plumpy.Process):
                 self._op_sync(op, i)
         sample(self, 'step', 'seg%d:exit' % i)
         return self._after(i, wait)
+
+
+def close_fresh(name, loop):
+    """A process that is created, given a cleanup callback and closed without ever being run (by whoever is executing now)."""
+    fresh = CurProc(inputs={'name': name, 'script': {'segments': [[]]}}, loop=loop)
+    PROCS.pop(name, None)  # never run: not one of the processes the harness drives
+    fresh.add_cleanup(_cb(fresh, 'cleanup'))
+    fresh.close()
 
 
 def _cb(proc, tag):
